@@ -14,7 +14,7 @@ from concurrent.futures import ProcessPoolExecutor
 
 VERIF = os.path.dirname(os.path.dirname(os.path.abspath(__file__)))
 COQ = os.path.join(VERIF, 'coq')
-WORK = os.path.join(VERIF, 'work')
+WORK = os.environ.get('VERIF_WORK') or os.path.join(VERIF, 'work')   # override: parallel runs on scratch copies of /repo (seed_eval prun)
 REPO = os.environ.get('GIN_REPO', '/repo')
 NCPU = min(16, os.cpu_count() or 4)
 FORBIDDEN = re.compile(
@@ -329,8 +329,9 @@ def write_replay(pid, payload):
 
 
 def write_evidence(pid, ev):
-  os.makedirs(os.path.join(VERIF, 'evidence'), exist_ok=True)
-  path = os.path.join(VERIF, 'evidence', pid + '.json')
+  evdir = os.environ.get('VERIF_EVIDENCE_DIR') or os.path.join(VERIF, 'evidence')
+  os.makedirs(evdir, exist_ok=True)
+  path = os.path.join(evdir, pid + '.json')
   with open(path, 'w') as f:
     json.dump(jsonable(ev), f, indent=1, sort_keys=True, default=repr)
     f.write('\n')
